@@ -11,6 +11,14 @@ import (
 // goroutine through the real (*testing.T).FailNow would not allow that.
 type Failure struct{ Msg string }
 
+// HarnessError is the panic value for conditions that make a check impossible to
+// run (a contract that does not compile, a fixture that cannot be deployed):
+// the run is inconclusive, it is never reported as a violation of a property.
+type HarnessError struct{ Msg string }
+
+func (f HarnessError) Error() string  { return f.Msg }
+func (f HarnessError) String() string { return f.Msg }
+
 func (f Failure) Error() string  { return f.Msg }
 func (f Failure) String() string { return f.Msg }
 
